@@ -189,6 +189,10 @@ func (x *exec) directRender(name string, v view.View, extra int) {
 	// every granted height of at least the declared minimum; a view that
 	// declares a fixed height is granted exactly that
 	n := min + extra
+	if extra >= 1<<40 {
+		n = extra // an absurdly generous grant, taken as the height itself
+		x.ctx.Probe("direct_render_huge_height")
+	}
 	if min == max {
 		n = min
 	}
@@ -228,7 +232,11 @@ func (x *exec) doRender(ev Ev) {
 			if x.s.dis != nil && !x.stop {
 				v := x.s.emu.View()
 				declared := v.MinLines() - x.s.dis.View().MinLines() - 1
-				out, err, panicked, _, _ := captureRender(func() error { return v.Print(v.MinLines() + ev.N) })
+				grant := v.MinLines() + ev.N
+				if ev.N >= 1<<40 {
+					grant = ev.N
+				}
+				out, err, panicked, _, _ := captureRender(func() error { return v.Print(grant) })
 				if !panicked && err == nil && declared >= 0 {
 					got := 0
 					for _, l := range strings.Split(out, "\n") {
@@ -238,7 +246,7 @@ func (x *exec) doRender(ev Ev) {
 					}
 					x.ctx.Probe("register_table_height_checked")
 					if got != declared {
-						x.fail("C24", "render-fixed", "render-fixed/register-table", "the register table declares %d lines but wrote %d (emulator view granted %d lines)", declared, got, v.MinLines()+ev.N)
+						x.fail("C24", "render-fixed", "render-fixed/register-table", "the register table declares %d lines but wrote %d (emulator view granted %d lines)", declared, got, grant)
 					}
 				}
 			}
@@ -417,10 +425,6 @@ func (x *exec) memLab(seed int) {
 			x.fail("C30", "address-parse", "address/lab-panic/"+fn, "address %q panicked: %s", arg, msg)
 			return
 		}
-		if perr != nil {
-			x.fail("C30", "address-parse", "address/lab/rejected", "address argument %q (= %#x) was rejected: %v", arg, a, perr)
-			return
-		}
 		var row *ExpRow
 		for i := range exp {
 			if exp[i].Begin == a&^15 {
@@ -428,6 +432,14 @@ func (x *exec) memLab(seed int) {
 			}
 		}
 		isStored := row != nil && row.Cells[a&15] != ".."
+		if perr != nil {
+			if isStored {
+				// neither selected nor reported as absent
+				x.fail("C32", "address-select", "address-select/lab/stored-not-found", "address %#x (typed %q) is stored but the address command answered: %v", a, arg, perr)
+			}
+			x.fail("C30", "address-parse", "address/lab/rejected", "address argument %q (= %#x) was rejected: %v", arg, a, perr)
+			return
+		}
 		x.ctx.Note("memlab address %#x stored=%v err=%v", a, isStored, aerr != nil)
 		switch {
 		case isStored && aerr != nil:
@@ -739,6 +751,10 @@ func (x *exec) judgeAddress(c *pendingCmd, arg string, failed bool, after int) {
 		x.ctx.Probe("address_malformed")
 		if !failed {
 			x.fail("C30", "address-parse", "address/malformed-accepted", "address argument %q is none of decimal / 0x / 0b / 0-octal 64-bit forms but was not answered with an error", arg)
+		} else if m := regexp.MustCompile(`no line with address 0x([0-9a-fA-F]+) found`).FindStringSubmatch(c.out); m != nil {
+			// answered with an error, but with the one that says the argument
+			// was understood as an address
+			x.fail("C30", "address-parse", "address/malformed-understood", "address argument %q is none of decimal / 0x / 0b / 0-octal 64-bit forms but was taken for the address 0x%s", arg, m[1])
 		}
 		return
 	}
@@ -767,6 +783,9 @@ func (x *exec) judgeAddress(c *pendingCmd, arg string, failed bool, after int) {
 	if failed {
 		m := regexp.MustCompile(`no line with address 0x([0-9a-fA-F]+) found`).FindStringSubmatch(c.out)
 		if m == nil {
+			if row != nil && row.Cells[a&15] != ".." {
+				x.fail("C32", "address-select", "address-select/stored-not-found", "address %#x (typed %q) is stored but 'address' answered: %s", a, arg, errLine(c.out))
+			}
 			x.fail("C30", "address-parse", "address/"+form+"/rejected", "address argument %q (= %#x) was answered with an error: %s", arg, a, errLine(c.out))
 			return
 		}
